@@ -17,6 +17,10 @@ class Inheritance(Exception):
     pass
 
 
+class Recursive(Exception):
+    """Blocks that (across templates) contain each other: no finite flattening exists."""
+
+
 def blocks_of(items, out=None) -> list:
     out = [] if out is None else out
     for it in items:
@@ -37,6 +41,8 @@ def flatten(chain: list, data: dict) -> str:
         for b in blocks_of(t["items"]):
             defs.setdefault(b[1], []).append(b)
 
+    active: list = []
+
     def render(items, env: dict, name=None, k: int = 0) -> str:
         out = []
         for it in items:
@@ -53,7 +59,11 @@ def flatten(chain: list, data: dict) -> str:
                 d = defs[it[1]][0]
                 if d[2]:
                     raise Required(it[1])
+                if it[1] in active:
+                    raise Recursive(it[1])
+                active.append(it[1])
                 out.append(render(d[3], env, it[1], 0))
+                active.pop()
             elif op == "super":
                 if name is not None and k + 1 < len(defs[name]):
                     out.append(render(defs[name][k + 1][3], env, name, k + 1))
